@@ -84,7 +84,19 @@ impl CopyFromFileExecutor {
         let mut chunk_builder = DataChunkBuilder::new(&self.types, PROCESSING_WINDOW_SIZE);
         let mut size_count = 0;
 
+        #[cfg(risinglight_verif)]
+        let mut verif_n = 0usize;
         for record in reader.records() {
+            // verif hook (C15): fault-injection point inside the blocking reader thread, detail =
+            // record index. `Action::Error` makes the reader fail, `Action::Panic` panics here.
+            #[cfg(risinglight_verif)]
+            {
+                let action = crate::verif::point_sync("exec.copy_from.record", &verif_n.to_string());
+                verif_n += 1;
+                if action == crate::verif::Action::Error {
+                    return Err(Error::aborted());
+                }
+            }
             // read records and push raw str rows into data chunk builder
             let record = record?;
 
